@@ -114,8 +114,13 @@ def gen_case(rng, malformed=None):
         q[-1]["addr"] = free[0] if free else q[-1]["addr"]
     if malformed == "dup" and len(q) >= 1:
         q.append(dict(q[0], args=list(q[0]["args"])))
-    return {"p": p, "params": [str(x) for x in params], "q": q, "am": am, "kind": kind if not malformed else malformed,
-            "s0": rng.randrange(1 << 31), "s1": rng.randrange(1 << 31)}
+    s0, s1 = rng.randrange(1 << 31), rng.randrange(1 << 31)
+    # the arguments of the edit: for a model with a parameter, a different value in 3 cases of 5 (tagged UnknownChange)
+    nparams_v = list(params)
+    if nparams and rng.random() < 0.6:
+        nparams_v = [x + F(rng.choice([-2, -1, 1, 2]), 2) for x in params]
+    return {"p": p, "params": [str(x) for x in params], "nparams": [str(x) for x in nparams_v], "q": q, "am": am,
+            "kind": kind if not malformed else malformed, "s0": s0, "s1": s1}
 
 
 # ---- implementation ------------------------------------------------------------------
@@ -144,6 +149,11 @@ def _objects(case):
     return model, prop, amap, params
 
 
+def new_params(case):
+    import jax.numpy as jnp
+    return tuple(jnp.float32(float(F(x))) for x in case.get("nparams", case["params"]))
+
+
 def run_impl(case):
     """-> dict with x0, x1, w, bwd (Fractions) or err"""
     import jax
@@ -155,12 +165,15 @@ def run_impl(case):
     try:
         tr = model.simulate(jax.random.key(case["s0"]), params)
         req = Rejuvenate(prop, amap)
-        new_tr, w, retdiff, bwd = req.edit(jax.random.key(case["s1"]), tr, Diff.no_change(params))
+        np_ = new_params(case)
+        changed = case.get("nparams", case["params"]) != case["params"]
+        new_tr, w, retdiff, bwd = req.edit(jax.random.key(case["s1"]), tr, Diff.unknown_change(np_) if changed else Diff.no_change(params))
     except Exception as e:       # noqa: BLE001 - compared as a small enum
         return {"err": ERR.get(type(e).__name__, "EOther"), "exc": f"{type(e).__name__}: {str(e)[:120]}"}
     out = {"x0": mhq.read_chm(tr.get_choices(), uni), "x1": mhq.read_chm(new_tr.get_choices(), uni),
            "w": mhq.fr(w), "bwd": mhq.read_chm(bwd_constraint(req, tr, new_tr, case), quni),
            "score0": mhq.fr(tr.get_score()), "score1": mhq.fr(new_tr.get_score()),
+           "args1": [mhq.fr(a) for a in new_tr.get_args()],
            "bwd_type": type(bwd).__name__}
     return out
 
@@ -192,8 +205,11 @@ def oracle(case, out):
     qa = [s["addr"] for s in case["q"]]
     c0 = mhq.chm_of([(a, x0[a]) for a in uni])
     c1 = mhq.chm_of([(a, x1[a]) for a in uni])
-    lp0 = mhq.fr(model.assess(c0, params)[0])
-    lp1 = mhq.fr(model.assess(c1, params)[0])
+    nparams = new_params(case)
+    lp0 = mhq.fr(model.assess(c0, params)[0])            # log p(x) under the trace's arguments
+    lp1 = mhq.fr(model.assess(c1, nparams)[0])           # log p(x') under the arguments of the edit
+    if out.get("args1") is not None and out["args1"] != [F(x) for x in case.get("nparams", case["params"])]:
+        return f"the new trace holds the arguments {[float(a) for a in out['args1']]}, the edit was given {case.get('nparams')}"
     fwd_choices = mhq.chm_of([(a, x1[a]) for a in qa])      # x' restricted to the proposal's addresses
     bwd_choices = mhq.chm_of([(a, x0[a]) for a in qa])      # x restricted to them
     lq_fwd = mhq.fr(prop.assess(fwd_choices, amap(c0))[0])  # log q(x' | x)
@@ -228,9 +244,10 @@ def exact_safe(case, out):
     x0, x1 = dict(out["x0"]), dict(out["x1"])
     track = []
     s0 = mhq.f_site_scores(p, params, x0, track)
-    s1 = mhq.f_site_scores(p, params, x1, track)
+    nparams = [F(x) for x in case.get("nparams", case["params"])]
+    s1 = mhq.f_site_scores(p, nparams, x1, track)
     mhq.f_assess(p, params, x0, track)
-    mhq.f_assess(p, params, x1, track)
+    mhq.f_assess(p, nparams, x1, track)
     w = F(0)
     for a, b in zip(s1, s0):            # UpdateHandler: weight += fwd - stored score
         track.append(a - b)
@@ -255,7 +272,7 @@ def c_case(case, out):
     else:
         want = f"(ROk {c_chm(out['x0'])} {c_chm(out['x1'])} {c_q(out['w'])} {c_chm(out['bwd'])})"
     return (f"RCase {c_prog(case['p'])} {c_prog(case['q'])} {c_qlist([F(x) for x in case['params']])} "
-            f"{am} {k0} {k1} {want}")
+            f"{c_qlist([F(x) for x in case.get('nparams', case['params'])])} {am} {k0} {k1} {want}")
 
 
 def nontrivial(case, out):
